@@ -33,10 +33,10 @@ def realise(c, scratch, tag):
     if opus_listed:
         # valid1: B is a single track (the minimum), C has the rest
         b0, b1 = mkdisc.catalog_fragment(b"VOLB", 0, 0, 18 if x["vols"] == "valid1" else 720, [mkdisc.entry("BF", length=10, start=0)],
-                                         count_byte=None if x["vols"] != "invalid" else 5)
+                                         count_byte=None if x["vols"] not in ("invalid", "invalid-mid") else 5)
         mkdisc.put(img, 2, b0)
         mkdisc.put(img, 3, b1)
-        if x["vols"] == "valid1":
+        if x["vols"] in ("valid1", "invalid-mid"):
             c0, c1 = mkdisc.catalog_fragment(b"VOLC", 0, 0, 39 * 18, [mkdisc.entry("CF", length=10, start=0)])
             mkdisc.put(img, 4, c0)
             mkdisc.put(img, 5, c1)
@@ -56,7 +56,7 @@ def realise(c, scratch, tag):
     if opus_listed:
         s16[8] = 1
         s16[10] = 40
-        if x["vols"] == "valid1":
+        if x["vols"] in ("valid1", "invalid-mid"):
             s16[12] = 41
     mkdisc.put(img, 16, bytes(s16))
     data = bytes(img)
